@@ -735,6 +735,10 @@ pub fn run<P: Property>(prop: P, tier: Tier, seed: u64) -> RunResult {
                         let ex = std::cell::RefCell::new(Executor::new(&*prop, prop.isolate()));
                         let failed = AtomicBool::new(false);
                         let local = std::cell::RefCell::new(Stats::default());
+                        // first and most recent failure seen by this shard (kept for the case
+                        // that the shrunk value does not fail again: timing-dependent code)
+                        let first_fail = std::cell::RefCell::new(None);
+                        let last_fail = std::cell::RefCell::new(None);
                         let result = runner.run(&strategy, |case| {
                             if min_failed.load(Ordering::Relaxed) < shard {
                                 // a lower shard already failed: stop quickly
@@ -784,6 +788,10 @@ pub fn run<P: Property>(prop: P, tier: Tier, seed: u64) -> RunResult {
                                         local.evaluations += 1;
                                     }
                                     failed.store(true, Ordering::Relaxed);
+                                    if first_fail.borrow().is_none() {
+                                        *first_fail.borrow_mut() = Some((case.clone(), f.clone()));
+                                    }
+                                    *last_fail.borrow_mut() = Some((case.clone(), f.clone()));
                                     Err(TestCaseError::fail(f.sig))
                                 }
                             }
@@ -813,14 +821,44 @@ pub fn run<P: Property>(prop: P, tier: Tier, seed: u64) -> RunResult {
                             Err(TestError::Fail(_, case)) => {
                                 min_failed.fetch_min(shard, Ordering::Relaxed);
                                 // final verdict on the shrunk case
-                                let fail = match ex.exec(&case) {
-                                    Err(f) => f,
-                                    Ok(_) => Fail::new(
-                                        "harness/flaky",
-                                        "shrunk case passed when re-executed",
-                                    ),
-                                };
-                                Some((case, fail))
+                                // (a failure that does not repeat is retried: the smallest
+                                // value that failed during shrinking, then the original one,
+                                // three times each; only a repeatable failure is a verdict)
+                                let mut verdict = None;
+                                let candidates: Vec<_> = std::iter::once((case.clone(), None))
+                                    .chain(last_fail.into_inner().map(|(c, f)| (c, Some(f))))
+                                    .chain(first_fail.borrow().clone().map(|(c, f)| (c, Some(f))))
+                                    .collect();
+                                'outer: for (c, _) in &candidates {
+                                    for _ in 0..3 {
+                                        match ex.exec(c) {
+                                            Err(f) if known_sigs.contains(&f.sig) => {}
+                                            Err(f) => {
+                                                verdict = Some((c.clone(), f));
+                                                break 'outer;
+                                            }
+                                            Ok(_) => {}
+                                        }
+                                    }
+                                }
+                                Some(verdict.unwrap_or_else(|| {
+                                    let (c, f) = first_fail
+                                        .into_inner()
+                                        .expect("a failure was recorded");
+                                    eprintln!(
+                                        "NOT-REPEATABLE: sig={} :: {}\n  case: {}",
+                                        f.sig,
+                                        f.msg,
+                                        serde_json::to_string(&c).unwrap_or_default()
+                                    );
+                                    (
+                                        c,
+                                        Fail::new(
+                                            "harness/flaky",
+                                            format!("a failure ({}) did not repeat in 9 re-executions of the failing cases", f.sig),
+                                        ),
+                                    )
+                                }))
                             }
                             Err(TestError::Abort(reason)) => {
                                 eprintln!("INCONCLUSIVE: proptest aborted: {reason}");
